@@ -114,6 +114,29 @@ class Index(PyModel):
     def copy(self):
         return Index(self.tuples, self.names, self.default, self.multi)
 
+    def get_indexer(self, target, **k):
+        """position of each target label, -1 where the label is not in the index"""
+        if self.multi:
+            raise AnalysisAbort("MultiIndex.get_indexer is not modelled")
+        labels = [t[0] for t in self.tuples]
+        cells = target.cells if isinstance(target, (Series, ObjVec)) else (target.data if isinstance(target, SArr) else list(target))
+        out = []
+        for c in cells:
+            hit = [i for i, l in enumerate(labels) if cell_eq(l, c)]
+            out.append(rat(hit[0]) if hit else rat(-1))
+        return SArr((len(out),), out, dtype="int")
+
+    def get_loc(self, label):
+        labels = [t[0] for t in self.tuples]
+        hit = [i for i, l in enumerate(labels) if cell_eq(l, label)]
+        if not hit:
+            raise PyRaise("KeyError", None, repr(label))
+        return hit[0]
+
+    def isin(self, values):
+        vals = list(values.cells) if isinstance(values, (Series, ObjVec)) else list(values)
+        return vec([any(cell_eq(t[0], v) for v in vals) for t in self.tuples])
+
     @staticmethod
     def range(n):
         return Index([(i,) for i in range(n)], [None], default=True)
